@@ -9,5 +9,7 @@ def run(ctx):
     variable_get(ctx)
     from ..scen_misc import functional
     functional(ctx)
+    from ..scen_purity import getter_purity
+    getter_purity(ctx)       # a getter that keeps state (cell, thread-local, static) must still be a function of its arguments
     from ..conform import conformance
     conformance(ctx, ['binding'])      # the references the obligations are stated against, compared with jawk::go on concrete runs (validates the oracles; never decides)
